@@ -46,7 +46,7 @@ COMPONENTS = {
     "stub": ["RNG back end"]}
 ASSUMPTIONS = [
     "membership in a pruned polygon is judged by an own even-odd test over the library's vertex list (margin 1e-6 x size); in a pruned "
-    "mesh by the library's distanceTo with the voxel pitch used during that compile as margin (smaller excesses are counted unjudged)",
+    "mesh by the library's distanceTo with half the coarsest voxel pitch used during that compile as margin (smaller excesses are counted unjudged)",
     "clause 2 predicates are necessary conditions (vertices of the bounding box inside the container, camera distance <= visibleDistance "
     "+ radius) and are only applied when every knob-off scene satisfies them: the knob-off scenario is the reference",
     "a RejectionException after the iteration budget ends the batch; programs whose knob-off compile fails or yields no scene are unjudged",
@@ -61,7 +61,7 @@ NSCENE = {"quick": {"contain2d": (60, 500), "heading": (60, 500), "contain3d": (
 FINDINGS = {  # stable keys; attributed only by the matchers in `attribute`
     "z": "pruned-polygon-loses-z", "soft": "non-hard-requirement-used-for-pruning", "loop": "containment-erosion-retry-loop",
     "offset": "containment-intersects-base-although-offset-exceeds-inradius", "wrap": "relative-heading-range-not-normalised",
-    "clip": "voxel-dilation-clipped-to-grid", "zcmp": "flat-container-intersection-compares-z",
+    "clip": "voxel-dilation-clipped-to-grid",
     "cansee": "cansee-point-rotated-before-translated",
 }
 
@@ -238,7 +238,7 @@ def predicates(P, obs):
             lim = e["vd"] + float(np.linalg.norm(ob["dims"])) / 2
             out[f"within-view-distance[{i}]"] = (d <= lim + 1e-6, {"object": i, "observer": src, "distance": d, "visibleDistance_plus_radius": lim})
         if s.field and P.cells:
-            hs = [h for ring, h in P.cells if rr.poly_sd([np.array(ring)], ob["pos"][:1], ob["pos"][1:2])[0] < -1e-6]
+            hs = [h for (ring, _), h in zip(P.cells, s.field) if rr.poly_sd([np.array(ring)], ob["pos"][:1], ob["pos"][1:2])[0] < -1e-6]
             if len(hs) == 1:
                 d = abs(prunegen.norm_angle(ob["heading"] - hs[0]))
                 out[f"heading-follows-field[{i}]"] = (d <= 1e-6, {"object": i, "heading": ob["heading"], "cell_heading": hs[0]})
@@ -363,8 +363,9 @@ def rh_causes(P, s, point):
     keys = []
     if any(r.kind != "require" and r.quantity == "rh" and r.pred is not None for r in P.reqs):
         keys.append(FINDINGS["soft"])  # requirements.py compile(): relations are inferred whatever the statement kind / probability
-    hs = [prunegen.norm_angle(h) for _, h in P.cells]
-    here = hs if point is None else [h for (ring, _), h in zip(P.cells, hs) if rr.poly_sd([np.array(ring)], np.array(point[:1]), np.array(point[1:2]))[0] <= 0]
+    inside = [point is None or rr.poly_sd([np.array(ring)], np.array(point[:1]), np.array(point[1:2]))[0] <= 0 for ring, _ in P.cells]
+    hs = [prunegen.norm_angle(h) for f in P.fields.values() for h in f]  # cell headings of every field
+    here = [prunegen.norm_angle(h) for f in ([s.field] if s is not None and s.field else P.fields.values()) for h, k in zip(f, inside) if k]
     pairs = [p for h1 in here for h2 in hs for p in ([(h1, h2)] if s and s.name == "ego" else [(h2, h1)] if s else [(h1, h2), (h2, h1)])]
     if any(abs(ht - he) > math.pi and r.pred(prunegen.norm_angle(ht - he)) for he, ht in pairs for r in P.reqs
            if r.quantity == "rh" and r.pred is not None and (s is None or s.name in ("ego", r.target))):
@@ -383,9 +384,6 @@ def attribute(P, clause, info, probe):
     if clause == "pruning-reports-infeasible" and info.get("phase") == "compile":
         if "pruneRelativeHeading" in info["where"] and P.cells:
             return rh_causes(P, None, None)
-        if "pruneContainment" in info["where"] and "does not fit in container" in info["exception"] and any(
-                flat(o.base) and flat(o.cont) and o.base.zs != o.cont.zs and "with regionContainedIn cont" in o.spec for o in P.objs):
-            return FINDINGS["zcmp"]  # PolygonalRegion.intersect(PolygonalRegion): different z gives nowhere, containment ignores z
     if clause == "feasible-position-pruned-away" and s is not None:
         if i in stages.get("pruneRelativeHeading", []) and info.get("how") == "polygon" and P.cells:
             return rh_causes(P, s, info["point"])
@@ -395,7 +393,7 @@ def attribute(P, clause, info, probe):
         if i in stages.get("pruneVisibility", []) and box:
             return FINDINGS["clip"]  # VoxelRegion.dilation: the dense array is not padded, the result never leaves the grid's box
         p = np.array([[*info["point"][:2], s.cont.zs[0] if s.cont_flat else info["point"][2]]]) if s.cont is not None else None
-        if s.on and s.base_offset is not None and i in stages.get("pruneContainment", []) and float(s.cont.sd(p)[0]) > s.cont.tol:
+        if s.on and s.base_offset is not None and i in stages.get("pruneContainment", []) and p is not None and float(s.cont.sd(p)[0]) > s.cont.tol:
             return FINDINGS["offset"]  # pruneContainment: with maxErosion <= 0 the base is still intersected with the (uneroded) container,
             # although the drawn point (position - offset) of a contained object may then lie outside the container itself
     if clause == "pruning-helper-call-explosion" and info.get("helper", "").endswith("_erodeOverapproximate") and info.get("identical_calls", 0) > 8:
@@ -465,7 +463,11 @@ def run(tape):
     for name, objs in probe.get("stages", {}).items():
         stats[f"pruned-objects:{name}"] = len(objs)
         stats[f"programs-pruned:{name}"] = 1
-    pitch = probe.get("pitch", 0.0)
+    # margin for meshes built from voxels: half the coarsest voxel pitch of this compile.  The library erodes one layer less /
+    # dilates one layer more than needed, so a sound result has about a pitch of slack; on the unmodified tree no accepted
+    # position was ever outside a pruned mesh at all (700 programs), so half a pitch is far from the noise and a whole pitch
+    # would hide an erosion that is one layer too deep
+    pitch = probe.get("pitch", 0.0) / 2
 
     # clause 3: nothing but positions is touched
     byc_on, byc_off = {int(o.cid): o for o in on.objects}, {int(o.cid): o for o in off.objects}
